@@ -379,6 +379,45 @@ Definition run_idgen_natural (c : case) : bytes :=
 Definition run_format (c : case) : bytes :=
   [102; 109; 116; 58]%N ++ format_id (sarg c 0) (zarg c 0, zarg c 1).
 
+(* ---- kinds 5 and 6: the real code under Go's fake clock (build tag faketime): the clock starts at
+   2009-11-10 23:00:00 UTC and advances exactly by the scripted amounts, so the ids are compared literally ----
+   kind 5  id generator: sargs = [suffix], zargs = d1 d2 ... (the clock advances by d_i >= 0 before the i-th
+           Generate); output "clk:<base>;id;id;..."
+   kind 6  packer (synthetic streams as in kind 1): zargs = target, maxRecords, maxBytes, 0, (d, op)*
+           output "fk:<base>;item;..."  item = "-" or  id.idok.size.flags.tag(hex).payloadlength *)
+Definition fake_base : Z := 1257894000000000000.
+
+Definition run_idgen_clock (c : case) : bytes :=
+  [99; 108; 107; 58]%N ++
+  join semicolon (dec_of_Z fake_base :: gen_ids (sarg c 0) idgen_init (prefix_sums fake_base (c_zargs c))).
+
+Fixpoint ops_clocked (now : Z) (zs : list Z) : list (op Z) :=
+  match zs with
+  | d :: z :: zs' =>
+      let now' := now + d in
+      (if z <? 0 then OFlush else OWrite now' z) :: ops_clocked now' zs'
+  | _ => []
+  end.
+
+Definition item_literal {R} (cfg : config) (payload : list (piece R) -> bytes) (e : echunk R) : bytes :=
+  e_id e ++ dot ::
+  bool_digit (id_shape_ok (cf_suffix cfg) (e_id e) && bytes_eqb (e_id e) (e_opt_chunk e)) :: dot ::
+  (match cf_kind cfg with KForward => dec_of_Z (e_size e) | KDatadog => [120]%N end) ++ dot ::
+  (if e_as_array e then 97%N else 98%N) :: (if e_compressed e then 122%N else 112%N) :: dot ::
+  hex (e_tag e) ++ dot :: payload (e_body e).
+
+Definition run_packer_clocked (c : case) : bytes :=
+  let cfg := target_config (zarg c 0) (zarg c 1) (zarg c 2) (sarg c 0) in
+  let ops := ops_clocked fake_base (skipn 4 (c_zargs c)) ++ [OFlush] in
+  let (_, outs) := run_trace Z (fun n => n) cfg pstate_init ops in
+  [102; 107; 58]%N ++
+  join semicolon
+    (dec_of_Z fake_base ::
+     map (fun o => match o with
+                   | None => [45]%N
+                   | Some e => item_literal cfg (fun body => dec_of_Z (pieces_len Z (fun n => n) body)) e
+                   end) outs).
+
 Definition run_case_C11 (c : case) : bytes :=
   match c_kind c with
   | 0%N => run_packer_literal c
@@ -386,5 +425,7 @@ Definition run_case_C11 (c : case) : bytes :=
   | 2%N => run_idgen_script c
   | 3%N => run_idgen_natural c
   | 4%N => run_format c
+  | 5%N => run_idgen_clock c
+  | 6%N => run_packer_clocked c
   | _ => bad_case_output
   end.
